@@ -7,6 +7,8 @@ use crate::{
 };
 
 use super::{AvailableValue, HasGenKillInfo, HasGenValueInfo, MemoryLocation};
+use crate::passes::DiagnosticLocation;
+use std::str::FromStr;
 
 impl HasGenKillInfo for ParserNode {
     fn kill_reg(&self) -> RegisterSet {
@@ -77,7 +79,16 @@ impl HasGenValueInfo for ParserNode {
             )),
 
             ParserNode::LoadAddr(expr) => {
-                Some((expr.rd.get(), AvailableValue::Address(expr.name.clone())))
+                // `la` leaves the address in its register. The temporary of
+                // `sw rs, label, rt` is set by the `auipc` of the expansion
+                // alone: it holds the upper part of the address, which is no
+                // value the analysis knows
+                let is_la = Inst::from_str(&expr.inst.token().raw_text()) == Ok(Inst::La);
+                if is_la {
+                    Some((expr.rd.get(), AvailableValue::Address(expr.name.clone())))
+                } else {
+                    None
+                }
             }
             ParserNode::Load(expr) => Some((
                 expr.rd.get(),
